@@ -157,6 +157,68 @@ const WEIRD: &[&str] = &[
     "semi;colon",
 ];
 
+/// A different name that becomes equal to `name` once ' ', '-', '/' are replaced by '_'
+/// (what the plan printer does) - the builder must keep such names apart.
+pub fn sanitise_twin(rng: &mut StdRng, name: &str) -> Option<String> {
+    const CS: [char; 4] = [' ', '-', '/', '_'];
+    let idx: Vec<usize> = name.char_indices().filter(|(_, c)| CS.contains(c)).map(|(i, _)| i).collect();
+    if idx.is_empty() {
+        return None;
+    }
+    let mut out: Vec<char> = name.chars().collect();
+    let pos: Vec<usize> = name.chars().enumerate().filter(|(_, c)| CS.contains(c)).map(|(i, _)| i).collect();
+    let k = *pos.choose(rng)?;
+    let others: Vec<char> = CS.iter().copied().filter(|c| *c != out[k]).collect();
+    out[k] = *others.choose(rng)?;
+    Some(out.into_iter().collect())
+}
+
+/// Many systems funnelled into single groups: heavy anchor groups (so that appending keeps
+/// "improving the balance") and long runs of short writers of one resource.
+pub fn gen_funnel(rng: &mut StdRng) -> Prog {
+    let mut ops = Vec::new();
+    let mut k = 0usize;
+    let mut next_res: Res = 1;
+    let rounds = rng.gen_range(1..=3);
+    for _ in 0..rounds {
+        let anchors = rng.gen_range(1..=3);
+        let mut blocks: Vec<Vec<Op>> = Vec::new();
+        for _ in 0..anchors {
+            let r = next_res;
+            next_res += 1;
+            let n = rng.gen_range(1..=4);
+            let mut b = Vec::new();
+            for i in 0..n {
+                let t = if i == 0 { *[1u8, 2, 5].choose(rng).unwrap() } else { *[3u8, 4, 5].choose(rng).unwrap() };
+                b.push(Op::Add { r: vec![], w: vec![r], deps: vec![], t, name: if rng.gen_bool(0.2) { String::new() } else { format!("a{}", k) } });
+                k += 1;
+            }
+            blocks.push(b);
+        }
+        // interleave the anchor blocks keeping each block's own order
+        let mut merged: Vec<Op> = Vec::new();
+        while blocks.iter().any(|b| !b.is_empty()) {
+            let nonempty: Vec<usize> = (0..blocks.len()).filter(|i| !blocks[*i].is_empty()).collect();
+            let i = *nonempty.choose(rng).unwrap();
+            merged.push(blocks[i].remove(0));
+        }
+        ops.extend(merged);
+        let r = next_res;
+        next_res += 1;
+        let m = rng.gen_range(4..=12);
+        for _ in 0..m {
+            let t = *[1u8, 1, 1, 2].choose(rng).unwrap();
+            let (rr, ww) = if rng.gen_bool(0.85) { (vec![], vec![r]) } else { (vec![r], vec![]) };
+            ops.push(Op::Add { r: rr, w: ww, deps: vec![], t, name: if rng.gen_bool(0.2) { String::new() } else { format!("f{}", k) } });
+            k += 1;
+        }
+        if rng.gen_bool(0.3) {
+            ops.push(Op::Barrier);
+        }
+    }
+    Prog { ops }
+}
+
 pub fn gen_prog(rng: &mut StdRng, cfg: &GenCfg, depth: usize, prefix: &str) -> Prog {
     let n = rng.gen_range(cfg.n_min..=cfg.n_max);
     let mut ops = Vec::new();
@@ -201,7 +263,15 @@ pub fn gen_prog(rng: &mut StdRng, cfg: &GenCfg, depth: usize, prefix: &str) -> P
             continue;
         }
         // name
-        let name = if rng.gen_bool(cfg.p_unnamed) {
+        let twin = if !names.is_empty() && rng.gen_bool(0.08) {
+            let base = names.choose(rng).unwrap().clone();
+            sanitise_twin(rng, &base).filter(|t| !names.contains(t))
+        } else {
+            None
+        };
+        let name = if let Some(t) = twin {
+            t
+        } else if rng.gen_bool(cfg.p_unnamed) {
             String::new()
         } else if rng.gen_bool(cfg.p_weird_name) {
             format!("{}{} {}", prefix, WEIRD.choose(rng).unwrap(), k)
@@ -225,7 +295,13 @@ pub fn gen_prog(rng: &mut StdRng, cfg: &GenCfg, depth: usize, prefix: &str) -> P
         if cfg.p_ill > 0.0 && rng.gen_bool(cfg.p_ill) {
             if rng.gen_bool(0.5) || names.is_empty() {
                 let pos = rng.gen_range(0..=deps.len());
-                deps.insert(pos, format!("{}nosuch {}", prefix, k));
+                // an unregistered name; sometimes one that only differs from a registered
+                // name in characters the plan printer sanitises
+                let twin = names.choose(rng).cloned().and_then(|b| sanitise_twin(rng, &b)).filter(|t| !names.contains(t));
+                match twin {
+                    Some(t) if rng.gen_bool(0.5) => deps.insert(pos, t),
+                    _ => deps.insert(pos, format!("{}nosuch {}", prefix, k)),
+                }
             } else {
                 name = names.choose(rng).unwrap().clone();
             }
